@@ -62,7 +62,11 @@ func C17(r *vf.Run) {
 		r.Sample(map[string]interface{}{"colour": "0x7fff", "rgb": []int{31, 31, 31}})
 	}
 
+	r.SetExtra("new_exported_functions_poked", apiPokeKeys())
 	check := func(c int, m, d int, cells *[3][3]int64) {
+		if len(apiPokeKeys()) > 0 && (c*7+m+d)%5 == 0 {
+			apiPokes("github.com/alttpo/snes/color15", uint64(m), uint64(d), uint64(c))
+		}
 		got := color15.Color(c).MulDiv(uint8(m), uint8(d))
 		ch := [3]int{c & 31, (c >> 5) & 31, (c >> 10) & 31}
 		want := 0
